@@ -177,6 +177,8 @@ structure Single where
   icPDE     : Option MseIn             -- `u0(x) − u(0,x,·)` over the omega batch
   boundary  : List MseIn               -- one entry per facet with a condition
   norm      : Option (Rat × Rat × (List Rat → Params → Val) × List (List Rat))  -- w, L, u, samples
+  normNS    : Option (Rat × Rat × (List Rat → Params → Val) × List (List Rat) × List (List Rat))
+              -- non-stationary normalisation: w, L, u, time rows `(t)`, samples `(x…)`
   obs       : Option MseIn             -- `u(in_i,·)[slices] − val_i`
 
 structure Terms where
@@ -231,6 +233,24 @@ def normTerm (nm : Option (Rat × Rat × (List Rat → Params → Val) × List (
     if sizesOk xs.length t axes then .ok (normOf w L (vmapTerm f xs t axes))
     else .error "value_error"
 
+/-- non-stationary normalisation (`normalization_loss_apply`, two-batch branch): the outer `vmap` maps the
+    time rows together with the parameters, the inner one maps the normalisation samples only (the
+    parameters are already per time sample):
+    `w · mean_i (L · mean_{j,c} u(t_i, s_j; params_i)_c − 1)²` -/
+def normNSOf (w L : Rat) (f : List Rat → Params → Val) (ts ss : List (List Rat)) (sel : Nat → Params) : Rat :=
+  w * mean ((List.range ts.length).map fun i =>
+    let m := mean ((ss.map fun s => f ((ts.getD i []) ++ s) (sel i)).flatten)
+    (m * L - 1) * (m * L - 1))
+
+def normNSTerm
+    (nm : Option (Rat × Rat × (List Rat → Params → Val) × List (List Rat) × List (List Rat)))
+    (t : Tree) (axes : Option (List (String × Option Nat))) : Except String Rat :=
+  match nm with
+  | none => .ok 0
+  | some (w, L, f, ts, ss) =>
+    if sizesOk ts.length t axes then .ok (normNSOf w L f ts ss fun i => select t axes i)
+    else .error "value_error"
+
 /-- `if batch.param_batch_dict is not None: params = _update_eq_params_dict(params, …)` -/
 def stage1 (t0 : Tree) (pr : Option Rows) : Except String Tree :=
   match pr with
@@ -257,9 +277,41 @@ def evalSingleT (t0 : Tree) (s : Single) : Except String Terms := do
   let icP ← optTerm s.icPDE t1 ax1
   let bd ← sumTerms s.boundary t1 ax1
   let nm ← normTerm s.norm t1 ax1
+  let nmNS ← normNSTerm s.normNS t1 ax1
   let ob ← obsTerm t1 s.paramRows s.obsRows s.obs
-  pure { dyn := dyn, ic := icO + icP, boundary := bd, norm := nm, obs := ob }
+  pure { dyn := dyn, ic := icO + icP, boundary := bd, norm := nm + nmNS, obs := ob }
 
 def evalSingle (p : Params) (s : Single) : Except String Terms := evalSingleT (ofParams p) s
+
+/-! ### derivative routing of the dynamic term
+
+`_set_derivatives(params, derivative_keys.dyn_loss)` is applied to the parameters *after* the batch has
+been written into them: the derivative key of `k` gates the gradient that flows into the rows of a
+batched key, and nothing flows into the caller's own value of a batched key (it is not an input of any
+sample any more).  JAX AD is a contract, not a model: `df k j pt params` is the partial derivative of the
+user function with respect to entry `j` of the value of key `k` (tangent oracle). -/
+
+abbrev Tangent := String → Nat → List Rat → Params → Val
+
+def dotV (a b : Val) : Rat := sum (List.zipWith (· * ·) a b)
+
+/-- derivative of `w · Σ_c f_c²` at one sample -/
+def sampleGrad (w : Rat) (f : List Rat → Params → Val) (df : Tangent) (x : List Rat) (q : Params)
+    (k : String) (j : Nat) : Rat :=
+  w * (2 * dotV (f x q) (df k j x q))
+
+/-- gradient of the dynamic term with respect to entry `j` of row `i` of the batched key `k` -/
+def dynGradRow (m : MseIn) (df : Tangent) (t : Tree) (axes : Option (List (String × Option Nat)))
+    (mask : String → Bool) (k : String) (i j : Nat) : Rat :=
+  if mask k then sampleGrad m.w m.f df (m.xs.getD i []) (select t axes i) k j / (m.xs.length : Nat)
+  else 0
+
+/-- gradient of the dynamic term with respect to entry `j` of the caller's value of key `k` -/
+def dynGradCaller (m : MseIn) (df : Tangent) (t : Tree) (axes : Option (List (String × Option Nat)))
+    (mask : String → Bool) (batchedKeys : List String) (k : String) (j : Nat) : Rat :=
+  if batchedKeys.contains k then 0
+  else if mask k then
+    mean ((List.range m.xs.length).map fun i => sampleGrad m.w m.f df (m.xs.getD i []) (select t axes i) k j)
+  else 0
 
 end Jinns.ParamBatch
